@@ -51,7 +51,7 @@ func main() {
 	case "test":
 		fs := pflag.NewFlagSet("test", pflag.ExitOnError)
 		main := fs.String("main", "main.elk.test", "specify the main test file that loads tests")
-		grep := fs.String("grep", "", "test name filter regex pattern")
+		grep := fs.StringArray("grep", []string{}, "test name filter regex pattern")
 		path := fs.StringSliceP("path", "p", []string{}, "test file name glob with an optional line number")
 		fs.Parse(os.Args[2:])
 
@@ -127,8 +127,11 @@ func compileMain() {
 	compileFile(mainPath)
 }
 
-func runTest(main string, grep string, paths []string) {
-	if grep != "" {
+func runTest(main string, greps []string, paths []string) {
+	for _, grep := range greps {
+		if grep == "" {
+			continue
+		}
 		regexFilter, err := test.NewRegexFilter(grep)
 		if err != nil {
 			fmt.Printf("invalid grep: %s\n", err)
